@@ -137,7 +137,7 @@ def opTree (req : J) : J :=
 
 /-! ## holder / verifier flows -/
 
-def decodeSeg (s : String) : Option J := decodeDisc s
+def decodeSeg (s : String) : Option J := codec.decodeClaims s
 
 /-- (header, payload) of a compact JWT as the driver itself decodes them -/
 def peekJwt (jwt : String) : Option (J × J) :=
